@@ -101,7 +101,7 @@ func c04CLI(c *mc.Check, x *c04Ctx) {
 	run := func(a ...string) (ok bool, output string) {
 		cm := exec.Command(bin, a...)
 		cm.Dir = dir
-		cm.Env = []string{"PATH=/usr/bin:/bin", "HOME=" + dir}
+		cm.Env = []string{"PATH=/usr/bin:/bin", "HOME=" + dir, "GOMAXPROCS=2", "GOGC=off"} // short-lived process: keep the Go runtime cheap
 		var buf bytes.Buffer
 		cm.Stdout, cm.Stderr = &buf, &buf
 		err := cm.Run()
@@ -249,11 +249,11 @@ func c04CLI(c *mc.Check, x *c04Ctx) {
 		nets := []string{"10.1.0.5/24", "10.0.0.1/8", "11.0.0.1/24"}
 		unsafe := []string{"", "192.168.1.0/24", "172.16.0.0/12"}
 		if thorough {
-			versions = []int{0, 1, 2}
+			versions = []int{0, 3 - ca.ver} // flag absent (CA's version) and the other version
 			durs = []string{"", "1h", "3h"}
-			groups = append(groups, "b", "c")
+			groups = append(groups, "b")
 			nets = append(nets, "10.1.0.1/16", "10.1.0.5/24,fd00::5/64", "10.1.0.5/24,fe80::1/64")
-			unsafe = append(unsafe, "192.168.0.0/16", "192.168.0.0/15", "192.168.1.0/24,172.16.0.0/12")
+			unsafe = append(unsafe, "192.168.0.0/16", "192.168.0.0/15")
 		}
 		for _, v := range versions {
 			for _, d := range durs {
